@@ -239,7 +239,8 @@ def _run_engine(ctx, engine, broken, theorems, gen_ob, checker_cmd, tr_specs):
         what = broken[0] if broken else {"correspondence": res.divergences[0]["correspondence"]}
         res2 = Result()
         if hasattr(engine, "search"):
-            engine.search(ctx, res2, res.divergences, broken)
+            # the cases of translation-validation divergences are function arguments, not engine cases
+            engine.search(ctx, res2, [d for d in res.divergences if not str(d.get("correspondence", "")).startswith("translation/")], broken)
         new2, _old2 = classify(res2.failures, known, prop)
         res.evaluations += res2.evaluations
         res.nontrivial |= res2.nontrivial
